@@ -219,3 +219,34 @@ pub fn replay(args: &[String]) {
         "tree_mismatches": bad.len(), "first": bad.iter().take(60).collect::<Vec<_>>(), "strings": strings, "over_accepted": over.len(), "over": over, "panics": panics, "sample": sample});
     std::fs::write(&args[2], serde_json::to_string(&out).unwrap()).unwrap();
 }
+
+// gv repeat-parse <programs.jsonl> <times> <out.json>: diagnostics of repeated parse() calls in one process must be identical
+pub fn repeat_parse(args: &[String]) {
+    util::quiet_panics();
+    let times: usize = args[1].parse().unwrap();
+    let mut bad = vec![];
+    let mut calls = 0u64;
+    for l in util::read_lines(&args[0]) {
+        let Ok(rec) = serde_json::from_str::<Value>(&l) else { continue };
+        let text = rec["text"].as_str().unwrap_or("").to_string();
+        let Ok(toks) = tokenizer::tokenize(None, &text) else { continue };
+        let mut first: Option<Vec<String>> = None;
+        for _ in 0..times {
+            calls += 1;
+            let msgs: Vec<String> = match util::guarded(|| parser::parse(None, &text, &toks[..], &[])) {
+                Ok(Ok(_)) => vec![],
+                Ok(Err(e)) => e.iter().map(|x| x.message.clone()).collect(),
+                Err(p) => vec![format!("panic: {p}")],
+            };
+            match &first {
+                None => first = Some(msgs),
+                Some(f) if *f != msgs => {
+                    bad.push(json!({"text": text, "first": f, "other": msgs}));
+                    break;
+                }
+                _ => {}
+            }
+        }
+    }
+    std::fs::write(&args[2], json!({"calls": calls, "mismatches": bad.len(), "first": bad.iter().take(20).collect::<Vec<_>>()}).to_string()).unwrap();
+}
